@@ -13,7 +13,8 @@
 //!   bka                                                             KeepaliveBuilder
 //!
 //! The oracle uses `refdec` below: a strict decoder written from RFC 4271 /
-//! 5492 / 2918 and the capability RFCs, sharing no code with routecore.
+//! 5492 / 2918 and the documents defining the capabilities (`ref_cap_wf`, the same forms as the
+//! Lean predicate `RfcCap` in Rc/Lemmas/OpenRfc.lean), sharing no code with routecore.
 use crate::common::*;
 use routecore::bgp::message::keepalive::KeepaliveBuilder;
 use routecore::bgp::message::notification::{Details, NotificationBuilder};
@@ -61,10 +62,8 @@ pub fn exec_open(bs: Vec<u8>) -> String {
         Ok(v) => join(v.into_iter().map(|(f, d)| { let (a, s): (u16, u8) = f.into(); format!("{}/{}/{}", a, s, u8::from(d)) })),
         Err(_) => "E".into(),
     });
-    let sw = acc(|| match m.get_software_version() {
-        None => "none".into(),
-        Some(s) => if s.is_ascii() { hex(s.as_bytes()) } else { "na".into() },
-    });
+    // only presence (and absence of a panic): the property does not speak about this accessor's value
+    let sw = acc(|| match m.get_software_version() { None => "none".into(), Some(_) => "some".into() });
     format!("ok len={} ver={} asn={} ht={} id={} opl={} params={} caps={} four={} mp={} ap={} sw={}",
         len, ver, asn, ht, id, opl, params, caps, four, mp, ap, sw)
 }
@@ -292,7 +291,14 @@ pub fn ref_cap_wf(code: u8, v: &[u8]) -> bool {
     match code {
         1 => n == 4,
         2 | 6 | 70 | 128 => n == 0,
-        3 | 130 => n >= 5 && n == 5 + 2 * v[4] as usize,
+        3 | 130 => { // RFC 5291: one or more blocks AFI(2) rsvd(1) SAFI(1) count(1) count x (type, send/receive)
+            let mut i = 0;
+            loop {
+                if i + 5 > n { break false; }
+                i += 5 + 2 * v[i + 4] as usize;
+                if i == n { break true; }
+            }
+        }
         5 => n % 6 == 0,
         8 => n % 4 == 0,
         9 => n == 1,
@@ -302,7 +308,8 @@ pub fn ref_cap_wf(code: u8, v: &[u8]) -> bool {
         69 => n >= 4 && n % 4 == 0 && v.chunks(4).all(|c| (1..=3).contains(&c[3])),
         71 => n % 7 == 0,
         73 => n >= 2 && { let hl = v[0] as usize; n >= 2 + hl && n == 2 + hl + v[1 + hl] as usize },
-        75 | 76 => n >= 1 && n == 1 + v[0] as usize,
+        75 => n >= 1 && n == 1 + v[0] as usize,      // draft-abraitis-bgp-version-capability: length octet + string
+        76 => n % 5 == 0,                            // draft-abraitis-idr-addpath-paths-limit: tuples AFI(2) SAFI(1) limit(2)
         _ => true,
     }
 }
@@ -339,10 +346,7 @@ fn ref_open_reply(o: &RefOpen, total: usize) -> String {
     for (_, v) in caps.iter().filter(|(c, _)| *c == 69) {
         for c in v.chunks(4) { ap.push(format!("{}/{}/{}", u16::from_be_bytes([c[0], c[1]]), c[2], c[3])); }
     }
-    let sw = match caps.iter().find(|(c, _)| *c == 75) {
-        None => "none".to_string(),
-        Some((_, v)) => if v.is_ascii() { hex(v) } else { "na".into() },
-    };
+    let sw = if caps.iter().any(|(c, _)| *c == 75) { "some" } else { "none" };
     format!("ok len={} ver={} asn={} ht={} id={} opl={} params={} caps={} four={} mp={} ap={} sw={}",
         total, o.ver, asn, o.ht, hex(&o.id), opl,
         join(o.params.iter().map(|(t, _)| *t)),
@@ -370,26 +374,33 @@ pub fn gen_cap_value(rng: &mut Rng, code: u8) -> Vec<u8> {
         1 => { let a = gen_afi(rng).to_be_bytes(); vec![a[0], a[1], 0, gen_safi(rng)] }
         2 | 6 | 70 | 128 => vec![],
         3 | 130 => {
-            let n = rng.usize(0, 4);
-            let a = gen_afi(rng).to_be_bytes();
-            let mut v = vec![a[0], a[1], 0, gen_safi(rng), n as u8];
-            for _ in 0..n { v.push(rng.u8()); v.push(rng.range(1, 3) as u8); }
+            let mut v = vec![];
+            for _ in 0..(if rng.chance(1, 3) { rng.usize(2, 3) } else { 1 }) {
+                let n = rng.usize(0, 4);
+                let a = gen_afi(rng).to_be_bytes();
+                v.extend_from_slice(&[a[0], a[1], 0, gen_safi(rng), n as u8]);
+                for _ in 0..n { v.push(rng.u8()); v.push(rng.range(1, 3) as u8); }
+            }
             v
         }
-        5 => { let n = rng.usize(0, 3); let mut v = vec![]; for _ in 0..n { v.extend_from_slice(&gen_afi(rng).to_be_bytes()); v.extend_from_slice(&(gen_safi(rng) as u16).to_be_bytes()); v.extend_from_slice(&gen_afi(rng).to_be_bytes()); } v }
-        8 => { let n = rng.usize(0, 3); let mut v = vec![]; for _ in 0..n { let l = rng.u8(); v.extend(fam4(rng, l)); } v }
+        5 => { let n = gen_count(rng, 3, 40); let mut v = vec![]; for _ in 0..n { v.extend_from_slice(&gen_afi(rng).to_be_bytes()); v.extend_from_slice(&(gen_safi(rng) as u16).to_be_bytes()); v.extend_from_slice(&gen_afi(rng).to_be_bytes()); } v }
+        8 => { let n = gen_count(rng, 3, 60); let mut v = vec![]; for _ in 0..n { let l = rng.u8(); v.extend(fam4(rng, l)); } v }
         9 => vec![rng.range(0, 4) as u8],
-        64 => { let n = rng.usize(0, 3); let mut v = rng.bytes(2); for _ in 0..n { let l = rng.u8(); v.extend(fam4(rng, l)); } v }
+        64 => { let n = gen_count(rng, 3, 60); let mut v = rng.bytes(2); for _ in 0..n { let l = rng.u8(); v.extend(fam4(rng, l)); } v }
         65 => rng.bytes(4),
         66 | 67 => { let n = rng.usize(0, 5); rng.bytes(n) }
         68 | 131 => { let n = rng.usize(1, 5); rng.bytes(n) }
-        69 => { let n = rng.usize(1, 4); let mut v = vec![]; for _ in 0..n { let d = rng.range(1, 3) as u8; v.extend(fam4(rng, d)); } v }
-        71 => { let n = rng.usize(0, 3); let mut v = vec![]; for _ in 0..n { let l = rng.u8(); v.extend(fam4(rng, l)); v.extend(rng.bytes(3)); } v }
+        69 => { let n = 1 + gen_count(rng, 3, 60); let mut v = vec![]; for _ in 0..n { let d = rng.range(1, 3) as u8; v.extend(fam4(rng, d)); } v }
+        71 => { let n = gen_count(rng, 3, 35); let mut v = vec![]; for _ in 0..n { let l = rng.u8(); v.extend(fam4(rng, l)); v.extend(rng.bytes(3)); } v }
         73 => { let h = rng.usize(0, 6); let d = rng.usize(0, 6); let mut v = vec![h as u8]; v.extend((0..h).map(|_| rng.range(97, 122) as u8)); v.push(d as u8); v.extend((0..d).map(|_| rng.range(97, 122) as u8)); v }
-        75 | 76 => { let n = rng.usize(0, 8); let mut v = vec![n as u8]; v.extend((0..n).map(|_| if rng.chance(1, 10) { rng.u8() } else { rng.range(32, 126) as u8 })); v }
+        75 => { let n = rng.usize(0, 8); let mut v = vec![n as u8]; v.extend((0..n).map(|_| if rng.chance(1, 10) { rng.u8() } else { rng.range(32, 126) as u8 })); v }
+        76 => { let n = rng.usize(0, 3); let mut v = vec![]; for _ in 0..n { v.extend_from_slice(&gen_afi(rng).to_be_bytes()); v.push(gen_safi(rng)); v.extend_from_slice(&(rng.edgy(65535) as u16).to_be_bytes()); } v }
         _ => { let n = rng.usize(0, 6); rng.bytes(n) }
     }
 }
+
+/// mostly 0..=small, now and then up to `big` entries (the value must still fit 255 octets)
+fn gen_count(rng: &mut Rng, small: usize, big: usize) -> usize { if rng.chance(1, 12) { rng.usize(small, big) } else { rng.usize(0, small) } }
 
 fn gen_code(rng: &mut Rng) -> u8 {
     match rng.below(10) {
@@ -489,7 +500,7 @@ impl Prop for C03 {
         //     and with its own parameter vs sharing one
         for &code in KNOWN_CAPS.iter().chain([7u8, 10, 72, 129, 255].iter()) {
             for len in 0..=253usize {
-                let val: Vec<u8> = (0..len).map(|i| match code { 3 | 130 if i == 4 => ((len.saturating_sub(5)) / 2) as u8, 73 | 75 | 76 if i == 0 => 0, _ => (i as u8) & 3 }).collect();
+                let val: Vec<u8> = (0..len).map(|i| match code { 3 | 130 if i == 4 => ((len.saturating_sub(5)) / 2) as u8, 73 | 75 if i == 0 => 0, _ => (i as u8) & 3 }).collect();
                 let c = tlv(code, &val);
                 v.push(format!("open {}", hex(&open_with_params(vec![(2, c.clone())]))));
                 if len <= 247 {
@@ -513,6 +524,40 @@ impl Prop for C03 {
             if rng.chance(1, 6) { v.push(format!("msg {}", hex(&m))); }
             for _ in 0..2 { let mm = mutate(rng, &m); v.push(format!("open {}", hex(&mm))); }
             if rng.chance(1, 8) { let mm = mutate(rng, &m); v.push(format!("msg {}", hex(&mm))); }
+        }
+        // --- optional parameters filling the one-octet total: several parameters, many capabilities,
+        //     long non-capability parameters, 250..=255 octets of parameters
+        for i in 0..40 * scale {
+            let mut params: Vec<(u8, Vec<u8>)> = vec![];
+            let target = 240 + (i % 16);
+            loop {
+                let used: usize = params.iter().map(|(_, v)| 2 + v.len()).sum();
+                if used + 4 > target { break; }
+                let room = target - used - 2;
+                if rng.chance(1, 5) {
+                    let l = rng.usize(0, room.min(120));
+                    params.push((*rng.pick(&[0u8, 1, 3, 4, 100, 254, 255]), rng.bytes(l)));
+                } else {
+                    let mut cur = vec![];
+                    for _ in 0..rng.usize(1, 6) {
+                        let code = gen_code(rng);
+                        let c = tlv(code, &gen_cap_value(rng, code));
+                        if cur.len() + c.len() > room { break; }
+                        cur.extend_from_slice(&c);
+                    }
+                    if cur.is_empty() { cur = tlv(200, &vec![7; room.saturating_sub(2).min(253)]); }
+                    params.push((2, cur));
+                }
+            }
+            let m = RefOpen { ver: 4, asn2: 64512, ht: 180, id: [192, 0, 2, 1], params }.encode();
+            v.push(format!("open {}", hex(&m)));
+            v.push(format!("open {}", hex(&mutate(rng, &m))));
+        }
+        // --- NOTIFICATIONs at the maximum message size and at the limit of the length field
+        for total in [4095usize, 4096, 4097, 65535] {
+            let mut m = hdr(total as u16, 3); m.push(6); m.push(2); m.extend((21..total).map(|i| (i % 251) as u8));
+            v.push(format!("notif {}", hex(&m)));
+            if total <= 4097 { v.push(format!("msg {}", hex(&m))); }
         }
         // --- truncation at every offset of a few messages (both with stale and with repaired lengths)
         for _ in 0..6 {
@@ -641,12 +686,16 @@ impl Prop for C03 {
                 if reply.starts_with("ok") && reply.split(' ').any(|f| f.ends_with("=P")) { return Err(format!("an accessor of an accepted NOTIFICATION panicked: {}", reply)); }
                 let wf = bs.len() >= 21 && bs.len() <= 4096 && header_ok(&bs) && bs[18] == 3;
                 if wf {
-                    // code and subcode as on the wire; details().raw() may drop the subcode for codes 0 and 4
-                    // (that is C18's known finding K1, not judged here)
-                    let raw_sub = if bs[19] == 0 || bs[19] == 4 { 0 } else { bs[20] };
-                    let want = format!("ok len={} code={} raw={}.{} data={}", bs.len(), bs[19], bs[19], raw_sub,
-                        if bs.len() > 21 { hex(&bs[21..]) } else { "none".into() });
-                    if reply != want { return Err(format!("well-formed NOTIFICATION: expected `{}`", want)); }
+                    // code, subcode and data exactly as on the wire
+                    let data = if bs.len() > 21 { hex(&bs[21..]) } else { "none".into() };
+                    let want = format!("ok len={} code={} raw={}.{} data={}", bs.len(), bs[19], bs[19], bs[20], data);
+                    if reply != want {
+                        // details() has no room for a subcode with codes 0 and 4: known finding K1
+                        if (bs[19] == 0 || bs[19] == 4) && reply == format!("ok len={} code={} raw={}.0 data={}", bs.len(), bs[19], bs[19], data) {
+                            return Err(format!("NOTIFICATION code {}: subcode {} reported as 0 (K1)", bs[19], bs[20]));
+                        }
+                        return Err(format!("well-formed NOTIFICATION: expected `{}`", want));
+                    }
                 }
                 Ok(())
             }
@@ -674,6 +723,9 @@ impl Prop for C03 {
                 }
                 if bs.len() == 19 && header_ok(&bs) && bs[18] == 4 && reply != "ok keepalive len=19 type=4" { return Err("well-formed KEEPALIVE not dispatched".into()); }
                 if bs.len() >= 21 && bs.len() <= 4096 && header_ok(&bs) && bs[18] == 3 && reply != format!("ok notification len={} type=3", bs.len()) { return Err("well-formed NOTIFICATION not dispatched".into()); }
+                if bs.len() == 23 && header_ok(&bs) && bs[18] == 5 && reply != "ok routerefresh len=23 type=5" {
+                    return Err("well-formed ROUTE-REFRESH not decoded by Message::from_octets (K13)".into());
+                }
                 if reply.starts_with("ok keepalive") && bs.len() != 19 { return Err("KEEPALIVE of other than 19 bytes accepted".into()); }
                 if reply.starts_with("ok") && !header_ok(&bs) { return Err("message accepted although header length disagrees with the bytes supplied".into()); }
                 Ok(())
